@@ -543,6 +543,8 @@ inline void prop_c10(const vf::Case& c, Ctx& ctx)
     VF_CHECK(e::database_exists(dir), "database_exists() is false right after creation");
     if (h.coin())
         prelude(*w, h, ctx);
+    if (h.coin())
+        prelude_deep(*w, h, ctx);
     int reopens = 0;
     bool rich = false;
     // close points: decoded from the header (up to three, anywhere in the history) plus always at the end
@@ -608,6 +610,8 @@ inline void prop_c11(const vf::Case& c, Ctx& ctx)
     check_stored(*w, dir, w->hist + " [fresh]");
     if (h.coin())
         prelude(*w, h, ctx);
+    if (h.coin())
+        prelude_deep(*w, h, ctx);
     bool nt = false;
     for (size_t r = 1; r < c.size(); ++r)
     {
@@ -660,6 +664,8 @@ inline void prop_c16(const vf::Case& c, Ctx& ctx)
     ctx.label(on_disk ? "on-disk" : "in-memory");
     if (h.coin())
         prelude(*w, h, ctx);
+    if (h.coin())
+        prelude_deep(*w, h, ctx);
     for (size_t r = 1; r < c.size(); ++r)
     {
         S s(c[r]);
